@@ -33,9 +33,11 @@ URLS = ["http://tracker.example/announce", "udp://t2.example:6969", "https://a.b
 
 
 def value_text():
-    return st.one_of(st.sampled_from(["c", "a comment", "x=y&z", "MyTracker", "with : colon", "0", "k = v", "Season 2 #3 ; remastered", "a ;b", "x #y"]),
+    # comment / source are free text: the words true / false / yes / on / 1 are text there too (`--comment true` records "true")
+    return st.one_of(st.sampled_from(["c", "a comment", "x=y&z", "MyTracker", "with : colon", "0", "k = v", "Season 2 #3 ; remastered", "a ;b", "x #y",
+                                      "true", "false", "True", "FALSE", "yes", "on", "1", "none"]),
                      st.text(alphabet="abc XYZ09_=&+:;[]", min_size=1, max_size=12)).filter(
-        lambda t: t.strip() == t and t and t[0] not in "#;-" and t.lower() not in ("true", "false"))
+        lambda t: t.strip() == t and t and t[0] not in "#;-")
 
 
 def url():
@@ -291,7 +293,10 @@ def run_case(case):
                 stray = [p for p in sandbox.snapshot(scr) if p.endswith(".torrent")]
                 return Outcome(Violation("C20:%s:out-ignored" % route, "route %s did not write the metafile where `out` says (%s); .torrent files now: %r" % (
                     route, os.path.relpath(want, scr), stray[:4])), True)
-            metas[route] = vmeta.Meta.from_file(want)
+            try:
+                metas[route] = vmeta.Meta.from_file(want)
+            except vmeta.MetaError as e:
+                return Outcome(Violation("C20:%s:undecodable" % route, "route %s wrote a file that is not a bencoded metafile: %s" % (route, e)), True)
     classes = ["opts=%d" % len(case["opts"])] + sorted("opt-" + n for n in case["opts"])
     if swallowed:
         classes.append("content-after-list-flag")
